@@ -125,3 +125,29 @@ def py_bytes(e, bs, m=None):
         else:
             raise Unsupported('symbolic byte')
     return bytes(out)
+
+
+def panic_site(v):
+    """function in which a panic/UB violation happened (for role keys)"""
+    import re
+    m = re.search(r' in (?:.*::)?(\w+)$', v['msg'])
+    if m and not v['msg'].startswith('index out of') and 'model' not in v['msg']:
+        return m.group(1)
+    w = v.get('where') or []
+    if w:
+        return w[-1].split('::')[-1]
+    return '?'
+
+
+def panic_kind(msg):
+    if 'divide' in msg or 'division' in msg:
+        return 'div-by-zero'
+    if 'overflow' in msg:
+        return 'overflow'
+    if 'UB' in msg:
+        return 'ub'
+    if 'index' in msg or 'range' in msg or 'bounds' in msg:
+        return 'index'
+    if 'unwrap' in msg or 'expect' in msg:
+        return 'unwrap'
+    return 'panic'
